@@ -199,7 +199,7 @@ func (s *sess) pump(lk link) {
 			}
 			s.seen = append(s.seen, m)
 		}
-		ws := s.waiters
+		ws := append([]chan wamp.Message(nil), s.waiters...) // the slice is edited under the lock
 		s.mu.Unlock()
 		for _, w := range ws {
 			select {
